@@ -19,7 +19,7 @@ RATIOS = [(1, 1), (1, 2), (1, 3), (1, 4), (1, 5), (5, 1), (2, 1), (3, 1), (2, 3)
 
 def plan(tier, seed, scale):
     q = tier == "quick"
-    return {"n_cases": int((1500 if q else 40000) * scale), "remote_every": 50 if q else 40,
+    return {"n_cases": int((1500 if q else 200000) * scale), "remote_every": 50 if q else 200,
             "timeout_s": 900 if q else 10800}
 
 
